@@ -13,7 +13,7 @@
    Step theorems: related states, same call => equal projected results (directories: name, mode, owner only)
    and related states again. *)
 From Avfs Require Import Base PathModel PathSpec PathProofs PathCleanProofs PathIterProofs MemFS MemFile World Posix
-  Inv InvPath InvConseq OrefaFS OrefaWorld OrefaLemmas OrefaInv OrefaSpec.
+  WalkBridge Inv InvPath InvConseq OrefaFS OrefaWorld OrefaLemmas OrefaInv OrefaSpec.
 
 (* ---- walks on components ------------------------------------------------------------------------------ *)
 Fixpoint twalk (h : heap) (d : nat) (cs : list str) : option nat :=
@@ -321,3 +321,222 @@ Proof.
     + eexists. split; [reflexivity|]. unfold on_dir. cbn [on_meta on_ch on_nlink on_data]. auto 6.
     + exact I.
 Qed.
+
+(* ---- look-ups of related states ---------------------------------------------------------------------------- *)
+Section Related.
+  Variables (o : ofs) (s : fsys) (sv : sview).
+  Hypothesis Hh : ohyps s sv.
+  Hypothesis Hr : orel o s sv.
+  Notation h := (f_heap s).
+  Notation root := (v_root (sv_view sv)).
+
+  Lemma twalk_valid : forall cs d i, (exists nd, get h d = Some nd) -> twalk h d cs = Some i -> exists nd, get h i = Some nd.
+  Proof.
+    induction cs as [|c r IH]; intros d i Hd Hw; cbn [twalk] in Hw; [inversion Hw; subst; exact Hd|].
+    destruct (alookup str_eqb c (children h d)) as [n|] eqn:El; [|discriminate].
+    apply (IH n i); [|exact Hw]. apply (child_get h (oh_inv _ _ Hh) d c n El).
+  Qed.
+
+  Lemma root_valid : exists nd, get h root = Some nd.
+  Proof. pose proof (oh_root _ _ Hh) as H. rewrite node_is_dir_get in H. destruct (get h root); [eauto|discriminate]. Qed.
+
+  Lemma nrel_dir x i : nrel (Some x) (get h i) -> on_dir x = node_is_dir h i.
+  Proof.
+    rewrite node_is_dir_get. destruct (get h i) as [[ch m|d k id m|t m]|] eqn:E; cbn [nrel node_dirb].
+    - intros (y & [= <-] & Hd & _). exact Hd.
+    - intros (y & [= <-] & Hd & _). exact Hd.
+    - intros _. exfalso. exact (oh_nosym _ _ Hh i t m E).
+    - discriminate.
+  Qed.
+
+  Lemma nrel_ch x i : nrel (Some x) (get h i) -> on_ch x = children h i.
+  Proof.
+    rewrite children_get. destruct (get h i) as [[ch m|d k id m|t m]|] eqn:E; cbn [nrel node_children].
+    - intros (y & [= <-] & _ & Hc & _). exact Hc.
+    - intros (y & [= <-] & _ & Hc & _). exact Hc.
+    - intros _. exfalso. exact (oh_nosym _ _ Hh i t m E).
+    - discriminate.
+  Qed.
+
+  Lemma nrel_meta x i : nrel (Some x) (get h i) -> on_meta x = meta_of h i.
+  Proof.
+    unfold meta_of. destruct (get h i) as [[ch m|d k id m|t m]|] eqn:E; cbn [nrel node_meta].
+    - intros (y & [= <-] & _ & _ & Hm). exact Hm.
+    - intros (y & [= <-] & _ & _ & _ & Hm & _). exact Hm.
+    - intros _. exfalso. exact (oh_nosym _ _ Hh i t m E).
+    - discriminate.
+  Qed.
+
+  Lemma ofind_twalk cs : gcs cs ->
+    match twalk h root cs with
+    | Some i => exists x, ofind o (rpath cs) = Some (i, x) /\ nrel (Some x) (get h i)
+    | None => ofind o (rpath cs) = None
+    end.
+  Proof.
+    intros Hcs. unfold ofind. rewrite (or_index _ _ _ Hr cs Hcs).
+    destruct (twalk h root cs) as [i|] eqn:Ew; [|reflexivity].
+    destruct (twalk_valid cs root i root_valid Ew) as (nd & Hnd).
+    pose proof (or_node _ _ _ Hr i) as Hn. rewrite Hnd in Hn.
+    destruct (oget (o_heap o) i) as [x|] eqn:Eo.
+    - exists x. split; [reflexivity|]. rewrite Hnd. exact Hn.
+    - exfalso. destruct nd as [ch m|d k id m|t m]; cbn [nrel] in Hn.
+      + destruct Hn as (y & [=] & _).
+      + destruct Hn as (y & [=] & _).
+      + exact (oh_nosym _ _ Hh i t m Hnd).
+  Qed.
+
+  Lemma oabs_abs cs : gcs cs -> oabs o (abs_path cs) = abs_path cs.
+  Proof.
+    intros Hcs. unfold oabs. rewrite (or_os _ _ _ Hr). rewrite abs_linux_def.
+    change (is_abs Linux (abs_path cs)) with true. cbv iota. apply clean_abs_path_fix. exact Hcs.
+  Qed.
+
+  (* errNotFound walks up; the kernel walks down: the same verdict *)
+  Lemma enf_loop_rel r : forall qs fuel c0, gcs (qs ++ [c0]) -> length qs < fuel ->
+    o_enf_loop fuel o (rpath (qs ++ [c0])) r =
+      match twalk h root qs with
+      | Some q => if node_is_dir h q then r else RFail ENotADirectory
+      | None => if N.eqb (tfail h root qs) ENOTDIR then RFail ENotADirectory else r
+      end.
+  Proof.
+    assert (Hstep : forall qs f c0, gcs qs -> good_comp c0 ->
+              o_enf_loop (S f) o (rpath (qs ++ [c0])) r =
+                match ofind o (rpath qs) with
+                | Some (_, n) => if on_dir n then r else RFail ENotADirectory
+                | None => o_enf_loop f o (rpath qs) r
+                end).
+    { intros qs f c0 Hq Hc0. cbn [o_enf_loop]. rewrite (or_os _ _ _ Hr). cbn [volume_name_len].
+      assert (Hl : Nat.leb (length (rpath (qs ++ [c0]))) 0 = false)
+        by (apply Nat.leb_gt; rewrite rpath_snoc, app_length; cbn [length]; lia).
+      rewrite Hl. rewrite (split_abs_rpath qs c0) by (apply comp_ok_nosl; apply good_comp_ok'; exact Hc0). reflexivity. }
+    induction qs as [|c' qs' IH] using rev_ind; intros fuel c0 Hg Hf; (destruct fuel as [|f]; [cbn [length] in Hf; lia|]);
+      apply gcs_snoc_inv in Hg; destruct Hg as [Hq Hc0]; rewrite (Hstep _ f c0 Hq Hc0).
+    - pose proof (ofind_twalk [] (Forall_nil _)) as H0. cbn [twalk] in *. destruct H0 as (x & Hx & Hn). rewrite Hx.
+      rewrite (nrel_dir x root Hn). reflexivity.
+    - pose proof (ofind_twalk (qs' ++ [c']) Hq) as H0.
+      destruct (twalk h root (qs' ++ [c'])) as [q|] eqn:Ew.
+      + destruct H0 as (x & Hx & Hn). rewrite Hx, (nrel_dir x q Hn). reflexivity.
+      + rewrite H0. rewrite app_length in Hf. cbn [length] in Hf.
+        rewrite (IH f c' Hq) by lia. rewrite (tfail_snoc h qs' root c' Ew).
+        destruct (twalk h root qs') as [p|]; [|reflexivity]. destruct (node_is_dir h p); reflexivity.
+  Qed.
+
+  Lemma enf_rel r ps c : gcs (ps ++ [c]) ->
+    o_enf o (rpath (ps ++ [c])) r =
+      match twalk h root ps with
+      | Some q => if node_is_dir h q then r else RFail ENotADirectory
+      | None => if N.eqb (tfail h root ps) ENOTDIR then RFail ENotADirectory else r
+      end.
+  Proof.
+    intros Hg. unfold o_enf. apply enf_loop_rel; [exact Hg|].
+    pose proof (rpath_length_ge (ps ++ [c])) as H. rewrite app_length in H. cbn [length] in H. lia.
+  Qed.
+
+  Lemma tfail_cases : forall ps d, tfail h d ps = ENOENT \/ tfail h d ps = ENOTDIR.
+  Proof.
+    induction ps as [|x ps IH]; intros d; cbn [tfail]; [left; reflexivity|].
+    destruct (node_is_dir h d); cbn [negb]; [|right; reflexivity].
+    destruct (alookup str_eqb x (children h d)); [apply IH|left; reflexivity].
+  Qed.
+
+  (* the two walks of the specification on "/ps/c" *)
+  Lemma klookup_down follow ps c : gcs (ps ++ [c]) -> length (ps ++ [c]) < WALK_FUEL ->
+    klookup s sv false follow (abs_path (ps ++ [c])) = tdown h root (ps ++ [c]).
+  Proof.
+    intros Hg Hl. rewrite (WalkBridge.klookup_abs_path s sv false follow (ps ++ [c]) Hg).
+    replace (match ps ++ [c] with [] => true | _ :: _ => false end) with false by (destruct ps; reflexivity).
+    apply (kwalk_tdown h (v_user (sv_view sv)) root (oh_admin _ _ Hh) (oh_inv _ _ Hh) (oh_nosym _ _ Hh)); assumption.
+  Qed.
+
+  Lemma klookup_par follow ps c : gcs (ps ++ [c]) -> length (ps ++ [c]) < WALK_FUEL ->
+    klookup s sv true follow (abs_path (ps ++ [c])) = tpar h root ps c.
+  Proof.
+    intros Hg Hl. rewrite (WalkBridge.klookup_abs_path s sv true follow (ps ++ [c]) Hg).
+    replace (match ps ++ [c] with [] => true | _ :: _ => false end) with false by (destruct ps; reflexivity).
+    apply (kwalk_tpar h (v_user (sv_view sv)) root (oh_admin _ _ Hh) (oh_inv _ _ Hh) (oh_nosym _ _ Hh)); [exact Hg|].
+    rewrite app_length in Hl. cbn [length] in Hl. lia.
+  Qed.
+End Related.
+
+(* ---- results: equal, except what a directory's FileInfo says about size and link count, and ids ---------- *)
+Definition info_osim (i j : finfo) : Prop :=
+  fi_name i = fi_name j /\ fi_mode i = fi_mode j /\ fi_uid i = fi_uid j /\ fi_gid i = fi_gid j /\
+  (has (fi_mode j) MODE_DIR = false -> fi_size i = fi_size j /\ fi_nlink i = fi_nlink j).
+
+Definition osim (a b : pres) : Prop :=
+  a = b \/ (exists i j, a = SInfo i /\ b = SInfo j /\ info_osim i j)
+  \/ (exists l l', a = SInfos l /\ b = SInfos l' /\ Forall2 info_osim l l').
+
+Section Steps.
+  Variables (o : ofs) (s : fsys) (sv : sview).
+  Hypothesis Hh : ohyps s sv.
+  Hypothesis Hr : orel o s sv.
+  Notation h := (f_heap s).
+  Notation root := (v_root (sv_view sv)).
+
+  Inductive resolved4 (ps : list str) (c : str) : Prop :=
+  | R_found p px i x :
+      twalk h root ps = Some p -> ofind o (rpath ps) = Some (p, px) -> nrel (Some px) (get h p) ->
+      node_is_dir h p = true -> alookup str_eqb c (children h p) = Some i ->
+      ofind o (rpath (ps ++ [c])) = Some (i, x) -> nrel (Some x) (get h i) -> resolved4 ps c
+  | R_absent p px :
+      twalk h root ps = Some p -> ofind o (rpath ps) = Some (p, px) -> nrel (Some px) (get h p) ->
+      node_is_dir h p = true -> alookup str_eqb c (children h p) = None ->
+      ofind o (rpath (ps ++ [c])) = None -> resolved4 ps c
+  | R_notdir p px :
+      twalk h root ps = Some p -> ofind o (rpath ps) = Some (p, px) -> nrel (Some px) (get h p) ->
+      node_is_dir h p = false -> ofind o (rpath (ps ++ [c])) = None -> resolved4 ps c
+  | R_nopath :
+      twalk h root ps = None -> ofind o (rpath ps) = None -> ofind o (rpath (ps ++ [c])) = None -> resolved4 ps c.
+
+  Lemma resolve4 ps c : gcs (ps ++ [c]) -> resolved4 ps c.
+  Proof.
+    intros Hg. pose proof Hg as Hg'. apply gcs_snoc_inv in Hg'. destruct Hg' as [Hps Hc].
+    pose proof (ofind_twalk o s sv Hh Hr ps Hps) as H1. pose proof (ofind_twalk o s sv Hh Hr (ps ++ [c]) Hg) as H2.
+    rewrite twalk_snoc in H2. destruct (twalk h root ps) as [p|] eqn:Ep.
+    - destruct H1 as (px & Hpx & Hn). destruct (node_is_dir h p) eqn:Ed.
+      + destruct (alookup str_eqb c (children h p)) as [i|] eqn:El.
+        * destruct H2 as (x & Hx & Hnx). eapply R_found; eauto.
+        * eapply R_absent; eauto.
+      + rewrite (children_nondir h p Ed) in H2. cbn [alookup] in H2. eapply R_notdir; eauto.
+    - apply R_nopath; auto.
+  Qed.
+
+  (* a node with a name has a positive link count *)
+  Lemma file_named p c i d k id m : alookup str_eqb c (children h p) = Some i -> get h i = Some (NFile d k id m) -> k <> 0%Z.
+  Proof.
+    intros Hl Hg. pose proof (I6_nlink (oh_inv _ _ Hh)) as H6. specialize (H6 i d k id m Hg). rewrite H6.
+    assert (0 < indeg h i); [|lia]. apply indeg_pos. exists p, c. unfold edge. apply al_in. exact Hl.
+  Qed.
+
+  Lemma fill_sim x p c i name : alookup str_eqb c (children h p) = Some i -> nrel (Some x) (get h i) ->
+    info_osim (o_fill x name) (k_info h i name).
+  Proof.
+    intros Hl Hn. unfold k_info, o_fill, info_osim. destruct (get h i) as [[ch m|d k id m|t m]|] eqn:E; cbn [nrel] in Hn.
+    - destruct Hn as (y & [= <-] & Hd & Hc & Hm). cbn [fi_name fi_mode fi_uid fi_gid fi_size fi_nlink]. rewrite Hm.
+      repeat (split; [reflexivity|]). pose proof (oh_modes _ _ Hh i _ E) as Hmd. cbn [node_meta node_dirb] in Hmd. congruence.
+    - destruct Hn as (y & [= <-] & Hd & Hc & Hk & Hm & Hdata). cbn [fi_name fi_mode fi_uid fi_gid fi_size fi_nlink]. rewrite Hm, Hd.
+      repeat (split; [reflexivity|]). intros _. rewrite (Hdata (file_named p c i d k id m Hl E)). auto.
+    - exfalso. exact (oh_nosym _ _ Hh i t m E).
+    - discriminate.
+  Qed.
+
+  (* ---- Stat / Lstat ---------------------------------------------------------------------------------------- *)
+  Theorem orefa_step_stat follow ps c : gcs (ps ++ [c]) -> length (ps ++ [c]) < WALK_FUEL ->
+    osim (proj_res Linux (o_stat o (abs_path (ps ++ [c])))) (k_stat follow s sv (abs_path (ps ++ [c]))).
+  Proof.
+    intros Hg Hl. pose proof Hg as Hg'. apply gcs_snoc_inv in Hg'. destruct Hg' as [Hps Hc].
+    unfold o_stat, k_stat. rewrite (oabs_abs o s sv Hr _ Hg), (or_os _ _ _ Hr), (oh_os _ _ Hh).
+    rewrite (klookup_down s sv Hh follow ps c Hg Hl), (tdown_spec h ps root c).
+    rewrite (@abs_path_rpath (ps ++ [c])) by (destruct ps; discriminate).
+    rewrite (split_abs_rpath ps c) by (apply comp_ok_nosl; apply good_comp_ok'; exact Hc).
+    destruct (resolve4 ps c Hg) as [p px i x Ew Hp Hnp Hd El Hx Hnx|p px Ew Hp Hnp Hd El Hx|p px Ew Hp Hnp Hd Hx|Ew Hp Hx];
+      rewrite Hx, Ew.
+    - rewrite Hd, El. right. left. do 2 eexists. split; [reflexivity|]. split; [reflexivity|].
+      rewrite <- (@abs_path_rpath (ps ++ [c])) by (destruct ps; discriminate). apply (fill_sim x p c i _ El Hnx).
+    - rewrite Hp, Hd, El, (nrel_dir s sv Hh px p Hnp), Hd. left. reflexivity.
+    - rewrite Hp, Hd, (nrel_dir s sv Hh px p Hnp), Hd. left. reflexivity.
+    - rewrite Hp, (enf_rel o s sv Hh Hr _ ps c Hg), Ew. left.
+      destruct (tfail_cases s ps root) as [E|E]; rewrite E; reflexivity.
+  Qed.
+End Steps.
